@@ -99,4 +99,163 @@ theorem agreeFrom_compactContainerEdit (c : Container) (k : Nat) : AgreeFrom k c
     rw [List.filter_filter]
     simp
 
+/-! ### the simulation relation -/
+
+def withC (s : State) (P Pr C RC : Container) : State :=
+  { s with propose := P, prepare := Pr, commit := C, roundChange := RC }
+
+def Sim (s s' : State) : Prop :=
+  ∃ P Pr C RC, s' = withC s P Pr C RC ∧ AgreeFrom s.round s.propose P ∧ AgreeFrom s.lastPreparedRound s.prepare Pr ∧
+    AgreeFrom s.round s.commit C ∧ AgreeFrom s.round s.roundChange RC
+
+def WF (s : State) : Prop := s.lastPreparedRound ≤ s.round
+
+def StepSim (st st' : Step) : Prop := st'.outs = st.outs ∧ st'.res = st.res ∧ Sim st.st st'.st ∧ WF st.st
+
+theorem okStep_sim {s s' : State} (h : Sim s s') (hw : WF s) (o : List Out) : StepSim (okStep s o) (okStep s' o) := by
+  obtain ⟨P, Pr, C, RC, rfl, h⟩ := h
+  exact ⟨rfl, rfl, ⟨P, Pr, C, RC, rfl, h⟩, hw⟩
+
+theorem failStep_sim {s s' : State} (h : Sim s s') (hw : WF s) (o : List Out) (f : Fail) : StepSim (failStep s o f) (failStep s' o f) := by
+  cases f <;> exact ⟨rfl, rfl, h, hw⟩
+
+theorem sendOr_sim (cfg : Cfg) {s s' : State} (h : Sim s s') (hw : WF s) (a : Atom) (m : Msg) (pre : List Out) :
+    StepSim (sendOr cfg s a m pre) (sendOr cfg s' a m pre) := by
+  have e : broadcast cfg s' m = broadcast cfg s m := by
+    obtain ⟨P, Pr, C, RC, rfl, _⟩ := h; rfl
+  unfold sendOr
+  rw [e]
+  cases wrap a (broadcast cfg s m) with
+  | ok o => exact okStep_sim h hw _
+  | error f => exact failStep_sim h hw _ f
+
+theorem uponPrepare_sim (cfg : Cfg) {s s' : State} (m : Msg) (h : Sim s s') (hm : s.round ≤ m.round) (hwf : WF s) :
+    StepSim (uponPrepare cfg s m) (uponPrepare cfg s' m) := by
+  obtain ⟨P, Pr, C, RC, rfl, hP, hPr, hC, hRC⟩ := h
+  have hle : s.lastPreparedRound ≤ m.round := Nat.le_trans hwf hm
+  have ha := agree_addFirst hPr m hle
+  have hfr : forRound Pr s.round = forRound s.prepare s.round := agree_forRound hPr hwf
+  unfold uponPrepare
+  rcases hx : addFirst (withC s P Pr C RC).prepare m with ⟨P1, b⟩
+  rcases hy : addFirst s.prepare m with ⟨P0, b0⟩
+  have hx' : addFirst Pr m = (P1, b) := hx
+  rw [hx', hy] at ha
+  obtain ⟨hb, hag⟩ := ha
+  simp only at hb hag
+  subst hb
+  have hfr1 : forRound P1 s.round = forRound P0 s.round := agree_forRound hag hwf
+  simp only [withC, hfr, hfr1]
+  cases b
+  · simp only [Bool.not_false, if_true]
+    exact okStep_sim ⟨P, Pr, C, RC, rfl, hP, hPr, hC, hRC⟩ hwf []
+  · simp only [Bool.not_true, Bool.false_eq_true, if_false]
+    have hS1 : Sim { s with prepare := P0 } { withC s P Pr C RC with prepare := P1 } := ⟨P, P1, C, RC, rfl, hP, hag, hC, hRC⟩
+    split
+    · exact okStep_sim hS1 hwf []
+    · split
+      · exact okStep_sim hS1 hwf []
+      · cases hacc : s.accepted with
+        | none => exact ⟨rfl, rfl, ⟨P, P1, C, RC, rfl, hP, hag, hC, hRC⟩, hwf⟩
+        | some p =>
+          simp only
+          have hS2 : Sim { s with prepare := P0, lastPreparedValue := p.fullData, lastPreparedRound := s.round, accepted := some p }
+              { withC s P Pr C RC with prepare := P1, lastPreparedValue := p.fullData, lastPreparedRound := s.round, accepted := some p } :=
+            ⟨P, P1, C, RC, rfl, hP, hag.mono hwf, hC, hRC⟩
+          exact sendOr_sim cfg hS2 (Nat.le_refl _) .bcastCommitFailed _ []
+theorem uponProposal_sim (cfg : Cfg) {s s' : State} (m : Msg) (h : Sim s s') (hm : s.round ≤ m.round)
+    (hwf : WF s) :
+    StepSim (uponProposal cfg s m) (uponProposal cfg s' m) := by
+  obtain ⟨P, Pr, C, RC, rfl, hP, hPr, hC, hRC⟩ := h
+  have ha := agree_addFirst hP m hm
+  unfold uponProposal
+  rcases hx : addFirst (withC s P Pr C RC).propose m with ⟨P1, b⟩
+  rcases hy : addFirst s.propose m with ⟨P0, b0⟩
+  have hx' : addFirst P m = (P1, b) := hx
+  rw [hx', hy] at ha
+  obtain ⟨hb, hag⟩ := ha
+  simp only at hb hag
+  subst hb
+  simp only
+  cases b
+  · simp only [Bool.not_false, if_true]
+    exact okStep_sim ⟨P, Pr, C, RC, rfl, hP, hPr, hC, hRC⟩ hwf []
+  · simp only [Bool.not_true, Bool.false_eq_true, if_false]
+    have hS : Sim { s with propose := P0, accepted := some m, round := m.round }
+        { withC s P Pr C RC with propose := P1, accepted := some m, round := m.round } :=
+      ⟨P1, Pr, C, RC, rfl, hag.mono hm, hPr, hC.mono hm, hRC.mono hm⟩
+    have hw1 : WF { s with propose := P0, accepted := some m, round := m.round } := Nat.le_trans hwf hm
+    have := sendOr_sim cfg hS hw1 .bcastPrepareFailed (createPrepare cfg { s with propose := P0, accepted := some m, round := m.round } m.round (hashData m.fullData))
+      (if m.round > s.round then [Out.timer m.height m.round] else [])
+    exact this
+
+theorem uponCommit_sim (cfg : Cfg) {s s' : State} (m : Msg) (h : Sim s s') (hm : s.round ≤ m.round) (hwf : WF s) :
+    StepSim (uponCommit cfg s m) (uponCommit cfg s' m) := by
+  obtain ⟨P, Pr, C, RC, rfl, hP, hPr, hC, hRC⟩ := h
+  have ha := agree_addFirst hC m hm
+  unfold uponCommit
+  rcases hx : addFirst (withC s P Pr C RC).commit m with ⟨C1, b⟩
+  rcases hy : addFirst s.commit m with ⟨C0, b0⟩
+  have hx' : addFirst C m = (C1, b) := hx
+  rw [hx', hy] at ha
+  obtain ⟨hb, hag⟩ := ha
+  simp only at hb hag
+  subst hb
+  have hl : longestUniqueSigners C1 m.round m.root = longestUniqueSigners C0 m.round m.root := agree_longest hag hm _
+  simp only [withC, hl]
+  cases b
+  · simp only [Bool.not_false, if_true]
+    exact okStep_sim ⟨P, Pr, C, RC, rfl, hP, hPr, hC, hRC⟩ hwf []
+  · simp only [Bool.not_true, Bool.false_eq_true, if_false]
+    rcases longestUniqueSigners C0 m.round m.root with ⟨signers, msgs⟩
+    simp only
+    have hS0 : Sim { s with commit := C0 } { withC s P Pr C RC with commit := C1 } := ⟨P, Pr, C1, RC, rfl, hP, hPr, hag, hRC⟩
+    split
+    · exact okStep_sim hS0 hwf []
+    · cases hacc : s.accepted with
+      | none =>
+        have hS : Sim { s with commit := C0, accepted := none } { withC s P Pr C RC with commit := C1, accepted := none } :=
+          ⟨P, Pr, C1, RC, rfl, hP, hPr, hag, hRC⟩
+        exact ⟨rfl, rfl, hS, hwf⟩
+      | some p =>
+        simp only
+        cases wrap Atom.aggregateFailed (aggregateCommitMsgs msgs p.fullData) with
+        | error f =>
+          have hS : Sim { s with commit := C0, accepted := some p } { withC s P Pr C RC with commit := C1, accepted := some p } :=
+            ⟨P, Pr, C1, RC, rfl, hP, hPr, hag, hRC⟩
+          exact failStep_sim hS hwf [] f
+        | ok agg =>
+          have hS : Sim { s with commit := C0, accepted := some p, decided := true, decidedValue := p.fullData }
+              { withC s P Pr C RC with commit := C1, accepted := some p, decided := true, decidedValue := p.fullData } :=
+            ⟨P, Pr, C1, RC, rfl, hP, hPr, hag, hRC⟩
+          exact ⟨rfl, rfl, hS, hwf⟩
+
+theorem createRoundChange_sim (cfg : Cfg) {s s' : State} (h : Sim s s') (r : Nat) :
+    createRoundChange cfg s' r = createRoundChange cfg s r := by
+  obtain ⟨P, Pr, C, RC, rfl, hP, hPr, hC, hRC⟩ := h
+  have hfr : forRound Pr s.lastPreparedRound = forRound s.prepare s.lastPreparedRound := agree_forRound hPr (Nat.le_refl _)
+  unfold createRoundChange getRoundChangeJustification
+  simp only [withC, hfr]
+
+theorem uponRoundTimeout_sim (cfg : Cfg) {s s' : State} (h : Sim s s') (hwf : WF s) :
+    StepSim (uponRoundTimeout cfg s) (uponRoundTimeout cfg s') := by
+  have hrc := createRoundChange_sim cfg h (s.round + 1)
+  obtain ⟨P, Pr, C, RC, rfl, hP, hPr, hC, hRC⟩ := h
+  unfold uponRoundTimeout
+  have hcp : canProcess cfg (withC s P Pr C RC) = canProcess cfg s := rfl
+  have hb : ∀ m, broadcast cfg (withC s P Pr C RC) m = broadcast cfg s m := fun _ => rfl
+  rw [hcp]
+  split
+  · exact ⟨rfl, rfl, ⟨P, Pr, C, RC, rfl, hP, hPr, hC, hRC⟩, hwf⟩
+  · simp only [withC] at hrc ⊢
+    rw [hrc]
+    have hS : Sim { s with round := s.round + 1, accepted := none } { withC s P Pr C RC with round := s.round + 1, accepted := none } :=
+      ⟨P, Pr, C, RC, rfl, hP.mono (Nat.le_succ _), hPr, hC.mono (Nat.le_succ _), hRC.mono (Nat.le_succ _)⟩
+    have hw : WF { s with round := s.round + 1, accepted := none } := Nat.le_trans hwf (Nat.le_succ _)
+    have hb' := hb (createRoundChange cfg s (s.round + 1))
+    simp only [withC] at hb'
+    rw [hb']
+    cases wrap Atom.bcastRoundChangeFailed (broadcast cfg s (createRoundChange cfg s (s.round + 1))) with
+    | ok o => exact okStep_sim hS hw _
+    | error f => exact failStep_sim hS hw _ f
+
 end Ssv.Qbft
